@@ -453,6 +453,50 @@ fn run(args: &Args, rep: &mut Report) {
         "G-STREAM (all classes, 0..30 items) x random scripts of 0..40 responses x write / write_vectored / write_all",
         prop_par("random-histories-bytes", args.seed, tier.pick(40_000, 1_000_000), strat(StreamCfg { max_items: 30, ..StreamCfg::ALL }, false), body, tojson),
     );
+    // buffers of 64 KiB and more in one call
+    let huge = |utf8: bool| {
+        move || {
+            (
+                gen::stream(StreamCfg { max_items: 8, ..(if utf8 { StreamCfg::UTF8 } else { StreamCfg::ALL }) }),
+                gen::huge_text(false),
+                any::<u16>(),
+                proptest::collection::vec(fault::resp_strategy(), 0..6),
+                if utf8 {
+                    prop_oneof![Just(Driver::Fmt), Just(Driver::FmtLiteral), Just(Driver::Write), Just(Driver::WriteAll)].boxed()
+                } else {
+                    prop_oneof![Just(Driver::Write), Just(Driver::Vectored), Just(Driver::WriteAll)].boxed()
+                },
+                any::<bool>(),
+                prop_oneof![Just(0u64), Just(1u64), Just(65_536u64), 0u64..64],
+            )
+                .prop_map(|(mut items, big, frac, script, driver, via_auto, param)| {
+                    gen::insert_huge(&mut items, big, frac);
+                    let bytes = gen::render(&items);
+                    let driver = if matches!(driver, Driver::Fmt | Driver::FmtLiteral) && std::str::from_utf8(&bytes).is_err() { Driver::WriteAll } else { driver };
+                    // write_all in chunks: whole, or 64 KiB pieces (param 1 would mean single bytes: too slow here)
+                    let param = if driver == Driver::WriteAll && param != 65_536 { 0 } else { param };
+                    // write_vectored hands over its first non-empty buffer only: keep that one large
+                    let param = if driver == Driver::Vectored { [65_535u64, 65_536, 100_000][param as usize % 3] } else { param };
+                    (bytes.clone(), Hist { hex: rt::hex(&bytes), script, driver, via_auto, param })
+                })
+        }
+    };
+    let body_huge = |(input, h): &(Vec<u8>, Hist), _: &mut Acc| match { let t0 = std::time::Instant::now(); let r = check_history(input, h); if std::env::var_os("C06_TIMING").is_some() { eprintln!("TIMING {:?} {:?} via_auto={} param={} len={} script={:?}", t0.elapsed(), h.driver, h.via_auto, h.param, input.len(), h.script); } r } {
+        // every case has a buffer beyond 64 KiB: that is the point of this sub-check
+        Ok(_) => Verdict::ok(Some(digest_str(&format!("{:?}{:?}{}{}{}", h.script, h.driver, h.via_auto, h.param, input.len())))),
+        Err(m) => Verdict { result: Err(m), nontrivial: None },
+    };
+    let tojson_huge = |(input, h): &(Vec<u8>, Hist)| json!({"hex": h.hex, "script": h.script, "driver": h.driver, "via_auto": h.via_auto, "param": h.param, "length": input.len()});
+    rep.add(
+        "huge-buffers",
+        false,
+        "G-STREAM (0..8 items) with one printable run of 64 KiB..200 KiB (16-bit boundaries) x scripts of 0..6 responses x write / write_vectored / write_all (whole, 64 KiB pieces) / write!",
+        {
+            let mut a = prop_par("huge-buffers", args.seed, tier.pick(150, 6_000), huge(false), body_huge, tojson_huge);
+            a.extend(prop_par("huge-buffers-utf8", args.seed, tier.pick(150, 6_000), huge(true), body_huge, tojson_huge));
+            a
+        },
+    );
     rep.add(
         "random-histories-utf8",
         false,
